@@ -12,6 +12,8 @@ package actionlint
 
 import (
 	"fmt"
+	"os"
+	"path/filepath"
 	"regexp"
 	"sort"
 	"strings"
@@ -358,6 +360,13 @@ func vNormalize(segs []string) string {
 }
 
 func vBuildCatalogue(seed, src string) (*vCatalogue, error) {
+	return vBuildCatalogueMode(seed, src, false)
+}
+
+// vBuildCatalogueMode with lenient=true skips the scalars whose source span cannot be located
+// (block scalars, multi-line or escaped quoted scalars, keys written in a non-verbatim form)
+// instead of failing: used for the repository's own workflows, which nobody wrote for this purpose.
+func vBuildCatalogueMode(seed, src string, lenient bool) (*vCatalogue, error) {
 	var doc yaml.Node
 	if err := yaml.Unmarshal([]byte(src), &doc); err != nil {
 		return nil, err
@@ -392,7 +401,13 @@ func vBuildCatalogue(seed, src string) (*vCatalogue, error) {
 			}
 			l, q, err := span(n)
 			if err != nil {
+				if lenient {
+					return n.Line, nil
+				}
 				return 0, err
+			}
+			if lenient && (l == 0 || n.Style&(yaml.LiteralStyle|yaml.FoldedStyle) != 0 || n.Tag == "!!merge" || (q && strings.ContainsAny(n.Value, "\\'\""))) {
+				return n.Line + strings.Count(n.Value, "\n"), nil
 			}
 			p := &vPos{Seed: seed, Path: path, NPath: vNormalize(vGeneric(segs)), Line: n.Line, Col: n.Column, Len: l, Value: n.Value, Quoted: q, KeyLine: keyLine, Parent: parent}
 			c.Scalars = append(c.Scalars, p)
@@ -419,11 +434,16 @@ func vBuildCatalogue(seed, src string) (*vCatalogue, error) {
 				k, v := n.Content[i], n.Content[i+1]
 				kl, _, err := span(k)
 				if err != nil {
-					return 0, err
+					if !lenient {
+						return 0, err
+					}
+					kl = -1
 				}
 				ksegs := append(append([]string{}, segs...), strings.ToLower(k.Value))
 				kp := &vPos{Seed: seed, Path: strings.ReplaceAll(strings.Join(ksegs, "."), ".[", "["), NPath: vNormalize(vGeneric(ksegs)), Line: k.Line, Col: k.Column, Len: kl, Value: k.Value, IsKey: true, KeyLine: k.Line, Parent: m}
-				c.Keys = append(c.Keys, kp)
+				if kl >= 0 {
+					c.Keys = append(c.Keys, kp)
+				}
 				m.Keys = append(m.Keys, kp)
 				el, err := walk(v, ksegs, m, k.Line)
 				if err != nil {
@@ -849,6 +869,43 @@ func vSiblingVariations(cats []*vCatalogue, skipped *int) []vVariation {
 				}
 				out = append(out, vVariation{Cat: dc, Container: cont})
 			}
+		}
+	}
+	return out
+}
+
+// vCorpusCatalogues returns lenient catalogues of the repository's own workflows (testdata/ok,
+// examples, err) that parse as YAML; with cleanOnly only those that lint clean.
+func vCorpusCatalogues(repo string, cleanOnly bool) []*vCatalogue {
+	var out []*vCatalogue
+	for _, g := range []string{"testdata/ok/*.yaml", "testdata/examples/*.yaml", "testdata/err/*.yaml"} {
+		files, _ := filepath.Glob(filepath.Join(repo, g))
+		sort.Strings(files)
+		for _, f := range files {
+			b, err := os.ReadFile(f)
+			if err != nil || strings.Contains(string(b), "\t") || strings.Contains(string(b), "\r") {
+				continue
+			}
+			src := string(b)
+			res := vLint(src, nil)
+			if res.Panic != "" || res.Err != nil {
+				continue
+			}
+			broken := false
+			for _, e := range res.Errs {
+				if strings.HasPrefix(e.Message, "could not parse as YAML") {
+					broken = true
+				}
+			}
+			if broken || (cleanOnly && len(res.Errs) > 0) {
+				continue
+			}
+			name := "corpus:" + filepath.Base(filepath.Dir(f)) + "/" + filepath.Base(f)
+			c, err := vBuildCatalogueMode(name, src, true)
+			if err != nil {
+				continue
+			}
+			out = append(out, c)
 		}
 	}
 	return out
